@@ -100,6 +100,14 @@ func (d *simMintDB) GetPendingProofsByQuote(q string) ([]storage.DBProof, error)
 	}
 	return d.inner.GetPendingProofsByQuote(q)
 }
+func (d *simMintDB) RemovePendingProofsByQuote(Ys []string, quoteId string) error {
+	// same seam label as RemovePendingProofs: oracles and fingerprints speak of "the release"
+	if d.pre(fmt.Sprintf("db.RemovePendingProofs n=%d", len(Ys))) {
+		return ErrInjectedDB
+	}
+	return d.inner.RemovePendingProofsByQuote(Ys, quoteId)
+}
+
 func (d *simMintDB) RemovePendingProofs(Ys []string) error {
 	if d.pre(fmt.Sprintf("db.RemovePendingProofs n=%d", len(Ys))) {
 		return ErrInjectedDB
